@@ -85,43 +85,6 @@ Fixpoint canon (t : ty) (v : val) {struct t} : val :=
   | TDelim i _ => canon i v
   end.
 
-(* ---------- validity ---------- *)
-Section ValidFields.
-Variable V : ty -> val -> bool.
-Fixpoint valid_fields (fs : list (option str * ty)) (vs : list val) : bool :=
-  match fs with
-  | [] => match vs with [] => true | _ => false end
-  | (None, _) :: r => valid_fields r vs
-  | (Some _, t) :: r =>
-      match vs with
-      | [] => false
-      | v :: vs' => V t (match v with VOmit => default_value t | _ => v end) && valid_fields r vs'
-      end
-  end.
-Fixpoint valid_variant (fs : list (option str * ty)) (k : nat) (v : val) : bool :=
-  match fs with
-  | [] => false
-  | f :: r => match k with O => V (snd f) v | S k' => valid_variant r k' v end
-  end.
-End ValidFields.
-
-Fixpoint validb (t : ty) (v : val) {struct t} : bool :=
-  match t with
-  | TPrim p => valid_prim p v
-  | TVoid _ => true
-  | TFix e n => match v with VList vs => (zlen vs =? n) && forallb (validb e) vs | _ => false end
-  | TVar e n =>
-      match v with
-      | VList vs =>
-          (zlen vs <=? n) && forallb (validb e) vs &&
-          (if is_utf8 e then match byte_values vs with Some bs => utf8_valid bs | None => false end else true)
-      | _ => false
-      end
-  | TStruct _ fs => match v with VStruct vs => valid_fields validb fs vs | _ => false end
-  | TUnion _ fs => match v with VUnion k x => (0 <=? k) && (k <? zlen fs) && valid_variant validb fs (Z.to_nat k) x | _ => false end
-  | TDelim i _ => validb i v
-  end.
-
 (* ---------- the encoding ---------- *)
 Section EncHelpers.
 Variable E : ty -> val -> Z -> list bool.
@@ -186,6 +149,46 @@ Fixpoint enc (t : ty) (v : val) (o : Z) {struct t} : list bool :=
   | TDelim i _ =>
       let b := enc i v 0 in
       low_bits (Z.to_nat (header_width (align i))) (zlen b / 8) ++ b
+  end.
+
+(* ---------- validity ---------- *)
+Section ValidFields.
+Variable V : ty -> val -> bool.
+Fixpoint valid_fields (fs : list (option str * ty)) (vs : list val) : bool :=
+  match fs with
+  | [] => match vs with [] => true | _ => false end
+  | (None, _) :: r => valid_fields r vs
+  | (Some _, t) :: r =>
+      match vs with
+      | [] => false
+      | v :: vs' => V t (match v with VOmit => default_value t | _ => v end) && valid_fields r vs'
+      end
+  end.
+Fixpoint valid_variant (fs : list (option str * ty)) (k : nat) (v : val) : bool :=
+  match fs with
+  | [] => false
+  | f :: r => match k with O => V (snd f) v | S k' => valid_variant r k' v end
+  end.
+End ValidFields.
+
+Fixpoint validb (t : ty) (v : val) {struct t} : bool :=
+  match t with
+  | TPrim p => valid_prim p v
+  | TVoid _ => true
+  | TFix e n => match v with VList vs => (zlen vs =? n) && forallb (validb e) vs | _ => false end
+  | TVar e n =>
+      match v with
+      | VList vs =>
+          (zlen vs <=? n) && forallb (validb e) vs &&
+          (if is_utf8 e then match byte_values vs with Some bs => utf8_valid bs | None => false end else true)
+      | _ => false
+      end
+  | TStruct _ fs => match v with VStruct vs => valid_fields validb fs vs | _ => false end
+  | TUnion _ fs => match v with VUnion k x => (0 <=? k) && (k <? zlen fs) && valid_variant validb fs (Z.to_nat k) x | _ => false end
+  | TDelim i _ =>
+      (* the byte length of the inner representation must fit the header (always the case when the extent is below 2^35
+         bits); pydsdl would silently truncate the header otherwise *)
+      validb i v && (zlen (enc i v 0) / 8 <? 2 ^ header_width (align i))
   end.
 
 (* the top level: a delimited type is written without its header unless asked for *)
